@@ -198,6 +198,20 @@ def classify(what: str) -> str:
     return "wrong-output"
 
 
+def fg_worker(args: tuple[dict[str, Any], str]) -> dict[str, Any]:
+    from harness import fgcorpus as FG
+    case, order = args
+    W.preload()
+    import mypy.dmypy_server  # noqa: F401
+    root = scratch("c03fg-")
+    try:
+        r = FG.run_fg_case(case, root, order)
+    except BaseException as e:  # harness problem with this case: skip it, never a verdict
+        r = {"name": case["name"], "file": case.get("file", ""), "order": order, "steps": 0, "violation": None, "skipped": "harness error %r" % (e,), "nontrivial": False}
+    shutil.rmtree(root, ignore_errors=True)
+    return r
+
+
 def main(argv: list[str]) -> int:
     tier, seed, replay = parse_args(argv)
     v = Verdict(PID, tier, seed)
@@ -322,14 +336,38 @@ def main(argv: list[str]) -> int:
             continue
         seen[key] = r
         v.violation(key, {"mode": r["job"]["mode"], "history": r["job"]["hist"], "minimal": r["minimal"], "recheck": r["job"].get("recheck", False), "fgcache_world": r["job"].get("cache")}, r["what"])
+    # ---- 5. the repository's own fine-grained scenarios, expected outputs ignored, forward and there-and-back
+    from harness import fgcorpus as FG
+    fcases = FG.fg_cases()
+    fwork = []
+    for c in fcases:
+        nst = len(FG.C.states_of(c))
+        fwork.append((c, "back" if nst >= 2 else "forward"))
+        if tier != "quick" and nst >= 2:
+            fwork.append((c, "reverse"))
+    fresults = []
+    with ProcessPoolExecutor(16) as pex:
+        for res in pex.map(fg_worker, fwork, chunksize=2):
+            fresults.append(res)
+    fseen = set()
+    for r in fresults:
+        if r["violation"]:
+            key = "fg:%s::%s:%s:%s" % (r["file"], r["name"], json.dumps(r.get("at")), r.get("digest"))
+            if key in fseen:
+                continue
+            fseen.add(key)
+            v.violation(key, {"kind": "fine-grained corpus", "file": r["file"], "case": r["name"], "order": r["order"], "steps": r.get("at")},
+                        "%s %s [%s]: %s" % (r["file"], r["name"], r["order"], r["violation"]))
     drift = [d for r in mresults if not r["fail"] for d in r["drift"]]
-    if not results or not mresults or nwatch == 0:
+    if not results or not mresults or nwatch == 0 or sum(r["steps"] for r in fresults) == 0:
         raise MachineryError("conformance step did not run")
     coverage = {
         "states": states, "transitions": transitions,
         "traces_validated_against_impl": len(mresults) + nwatch,
         "evaluations": len(results) + len(mresults), "distinct_nontrivial": sum(1 for r in results + mresults if r.get("nontrivial")),
         "steps": sum(r["steps"] for r in results + mresults), "failing_histories": len(fails), "distinct_minimal_failing": len(seen),
+        "fine_grained_corpus_cases_run": sum(1 for r in fresults if not r["skipped"]), "fine_grained_corpus_cases_skipped": sum(1 for r in fresults if r["skipped"]),
+        "fine_grained_corpus_steps_compared_with_fresh": sum(r["steps"] for r in fresults),
         "watcher_behaviours_replayed": nwatch, "daemon_model_behaviours_replayed": len(mresults),
         "model_drift_count": len(drift), "model_drift": drift[:8],
         "rule": "(i) every behaviour TLC emits for Gen_Daemon_*.cfg (edit/request histories, both import modes) on the real Server, each response "
@@ -337,7 +375,8 @@ def main(argv: list[str]) -> int:
                 "the real FileSystemWatcher; (iii) edit histories over the 48-world catalogue D, a request after every step, import following on "
                 "and off: quick = every 2-step history whose second world differs in one module + a fixed set of 200 3-4 step histories (every "
                 "third with recheck); thorough = all 2-step histories + 6000; (iv) the daemon started from a fine-grained cache built by a batch run on an earlier "
-                "state (fixed set of 120 / 2500 histories). non-trivial = history with >1 distinct world and diagnostics",
+                "state (fixed set of 120 / 2500 histories); (v) every case of test-data/unit/fine-grained*.test on a real Server with its expected output ignored: "
+                "own step order and there-and-back (thorough: also reversed), every response compared with a fresh build. non-trivial = history with >1 distinct world and diagnostics",
         "samples": [results[0]["job"], mresults[0]["job"]], "tlc": cov, "exhaustive": tier == "thorough",
     }
     return v.finish("model_checking", coverage, ["A-clock", "in-process Server.check / cmd_recheck (no socket), fresh forked process per history, test fixtures",
